@@ -9,6 +9,7 @@ import (
 	"go/types"
 	"math/big"
 	"os"
+	"runtime/debug"
 	"sort"
 	"strings"
 
@@ -39,52 +40,53 @@ type oblPart struct {
 }
 
 type Exec struct {
-	P            *Program
-	p            *Pool
-	tm           *TypeMap
-	top          *ssa.Function
-	topC         *FuncContract
-	facts        []*Term
-	obls         []*Obligation
-	regionSorts  map[string]*Sort
-	epochN       int
-	epochMerges  map[int]*epochMerge
-	ptrIDs       map[string]*Term
-	ptrByID      map[*Term]*PtrV
-	condClosures map[*Term][]condClosure
-	cellN        int
-	allocN       int
-	depth        int
-	inlineStack  []*ssa.Function
-	oblCount     map[string]int
-	assumptions  map[string]bool // opaque calls, havocs, trusted contracts used
-	unsupported  []string
-	old          *State
-	modSet       []modEntry // frame of the function under check
-	frameOn      bool
-	heapTop0     *Term
-	inputs       map[string]*Term
-	curProps     []string
-	sentinels    map[string]*Term
-	strLits      map[string]*Term
-	curFn        *ssa.Function
-	specDepth    int
-	boxes        map[*Term]boxInfo
-	shiftCache   map[string]*Term
-	specDecls    map[string]*FuncDecl
-	bitCache     map[int][]*Term
-	bitLinked    map[int]bool
-	bitTerm      map[int]*Term
-	boundOf      map[int][2]*big.Int
-	boundScanned int
-	expandMemo   map[string]*Term
-	symMemo      map[int]map[string]bool
-	sliceOrigin  map[*Term]*PtrV
-	allocOrder   map[*Term]int
-	bounded      map[*Term]bool
-	typeIDs      map[string]int
-	freshErrs    []*Term
-	noOblige     int // >0: evaluating spec code; do not emit obligations
+	P             *Program
+	p             *Pool
+	tm            *TypeMap
+	top           *ssa.Function
+	topC          *FuncContract
+	facts         []*Term
+	obls          []*Obligation
+	regionSorts   map[string]*Sort
+	epochN        int
+	epochMerges   map[int]*epochMerge
+	ptrIDs        map[string]*Term
+	ptrByID       map[*Term]*PtrV
+	condClosures  map[*Term][]condClosure
+	cellN         int
+	allocN        int
+	depth         int
+	inlineStack   []*ssa.Function
+	oblCount      map[string]int
+	assumptions   map[string]bool // opaque calls, havocs, trusted contracts used
+	unsupported   []string
+	old           *State
+	modSet        []modEntry // frame of the function under check
+	frameOn       bool
+	heapTop0      *Term
+	inputs        map[string]*Term
+	curProps      []string
+	sentinels     map[string]*Term
+	strLits       map[string]*Term
+	curFn         *ssa.Function
+	specDepth     int
+	boxes         map[*Term]boxInfo
+	shiftCache    map[string]*Term
+	specDecls     map[string]*FuncDecl
+	bitCache      map[int][]*Term
+	bitLinked     map[int]bool
+	bitTerm       map[int]*Term
+	localCellRefs map[*Term]string
+	boundOf       map[int][2]*big.Int
+	boundScanned  int
+	expandMemo    map[string]*Term
+	symMemo       map[int]map[string]bool
+	sliceOrigin   map[*Term]*PtrV
+	allocOrder    map[*Term]int
+	bounded       map[*Term]bool
+	typeIDs       map[string]int
+	freshErrs     []*Term
+	noOblige      int // >0: evaluating spec code; do not emit obligations
 }
 
 type modEntry struct {
@@ -96,7 +98,7 @@ func NewExec(P *Program) *Exec {
 	p := NewPool()
 	ex := &Exec{P: P, p: p, tm: NewTypeMap(p), regionSorts: map[string]*Sort{}, epochMerges: map[int]*epochMerge{},
 		ptrIDs: map[string]*Term{}, ptrByID: map[*Term]*PtrV{}, condClosures: map[*Term][]condClosure{}, oblCount: map[string]int{},
-		assumptions: map[string]bool{}, boxes: map[*Term]boxInfo{}, shiftCache: map[string]*Term{}, specDecls: map[string]*FuncDecl{}, bitCache: map[int][]*Term{}, bitLinked: map[int]bool{}, bitTerm: map[int]*Term{}, boundOf: map[int][2]*big.Int{}, expandMemo: map[string]*Term{}, symMemo: map[int]map[string]bool{}, sliceOrigin: map[*Term]*PtrV{}, typeIDs: map[string]int{}, inputs: map[string]*Term{}, sentinels: map[string]*Term{}, strLits: map[string]*Term{},
+		assumptions: map[string]bool{}, boxes: map[*Term]boxInfo{}, shiftCache: map[string]*Term{}, specDecls: map[string]*FuncDecl{}, bitCache: map[int][]*Term{}, bitLinked: map[int]bool{}, bitTerm: map[int]*Term{}, localCellRefs: map[*Term]string{}, boundOf: map[int][2]*big.Int{}, expandMemo: map[string]*Term{}, symMemo: map[int]map[string]bool{}, sliceOrigin: map[*Term]*PtrV{}, typeIDs: map[string]int{}, inputs: map[string]*Term{}, sentinels: map[string]*Term{}, strLits: map[string]*Term{},
 		allocOrder: map[*Term]int{}, bounded: map[*Term]bool{}}
 	p.DistinctFn = ex.distinct
 	ex.tm.Bounds = ex.bounds
@@ -142,10 +144,14 @@ func (ex *Exec) assume(st *State, t *Term) {
 }
 
 func (ex *Exec) fnName(fn *ssa.Function) string {
-	if fn.Pkg != nil {
-		return fn.Pkg.Pkg.Name() + "." + fn.RelString(fn.Pkg.Pkg)
+	suffix := ""
+	if fn == ex.top && ex.topC != nil && ex.topC.Behavior != "" && ex.topC.Behavior != "default" {
+		suffix = "{" + ex.topC.Behavior + "}"
 	}
-	return fn.String()
+	if fn.Pkg != nil {
+		return fn.Pkg.Pkg.Name() + "." + fn.RelString(fn.Pkg.Pkg) + suffix
+	}
+	return fn.String() + suffix
 }
 
 func (ex *Exec) oblige(st *State, kind, detail string, goal *Term, pos string) *Obligation {
@@ -173,6 +179,9 @@ func (ex *Exec) unsupportedf(format string, args ...interface{}) {
 type execPanic struct{ msg string }
 
 func (ex *Exec) fail(format string, args ...interface{}) {
+	if os.Getenv("GOVC_TRACE") != "" {
+		fmt.Fprintf(os.Stderr, "FAIL: %s\n%s\n", fmt.Sprintf(format, args...), debug.Stack())
+	}
 	panic(execPanic{fmt.Sprintf(format, args...)})
 }
 
@@ -721,6 +730,11 @@ func (ex *Exec) execInstr(fr *frame, st *State, in ssa.Instruction) {
 		// zero-initialise
 		ex.frameOff(func() { ex.storeNoNilCheck(st, ptr, ex.tm.Zero(el)) })
 		ex.initGhostFields(st, ref, el)
+		if _, isStruct := derefStruct(el); !isStruct || isHashType(el) || isAddrType(el) {
+			if in.Comment != "" && in.Comment != "complit" && in.Comment != "varargs" {
+				ex.localCellRefs[ref] = "*" + shortTypeName(el) // a captured / address-taken local variable
+			}
+		}
 		st.vals[in] = ref
 	case *ssa.Store:
 		addr := ex.val(st, in.Addr)
@@ -799,6 +813,9 @@ func (ex *Exec) execInstr(fr *frame, st *State, in ssa.Instruction) {
 	case *ssa.Call:
 		ex.doCall(fr, st, &in.Call, nil, nil, in, in.Pos())
 	case *ssa.Defer:
+		if callee := in.Call.StaticCallee(); callee != nil && ex.isOpaqueFn(callee) && ex.P.ContractFor(callee) == nil {
+			return // deferred call without modelled effect (mutex unlock, logging)
+		}
 		args := make([]Val, len(in.Call.Args))
 		for i, a := range in.Call.Args {
 			args[i] = ex.val(st, a)
